@@ -54,6 +54,8 @@ def step (st : St) (op impl : List String) : St × List String :=
     (if impl == ["EOF"] then { st with eofs := (nat side, nat si) :: st.eofs } else st, v)
   | ["inject", kind, _side, _at] => ({ st with injected := kind }, [])
   | ["abortcall", side] => ({ st with aborter := some (nat side) }, [])
+  | ["readerspin", side, si] =>
+    (st, [s!"[C18,C09] side {side} stream {si}: more than 5000 consecutive read-deadline errors on a stream that will never get data or an error ({" ".intercalate impl})"])
   | ["closecall", side] => ({ st with closeCalled := nat side :: st.closeCalled }, [])
   | ["stormopen", dir, si] => (st, [s!"[C20] OpenStream({si}) on side {dir} returned a different object while the stream was still open"])
   | ["unblocked"] =>
